@@ -128,11 +128,16 @@ func runC09(c *Ctx) {
 				return
 			}
 			b, ok := ifi.Cond.(*ssa.BinOp)
-			if !ok || b.Op != token.LEQ || !strings.HasSuffix(D(b.X), "Client.lastPing") {
+			// `lastPing <= 0` (reject on the true edge) or its negation `lastPing > 0` (reject on the false edge)
+			if !ok || (b.Op != token.LEQ && b.Op != token.GTR) || !strings.HasSuffix(D(b.X), "Client.lastPing") {
 				return
 			}
 			if z, isZ := constIntOf(b.Y); !isZ || z != 0 {
 				return
+			}
+			rejectEdge := 0
+			if b.Op == token.GTR {
+				rejectEdge = 1
 			}
 			found = true
 			bad := PathQ{Goal: func(x ssa.Instruction) bool {
@@ -142,7 +147,7 @@ func runC09(c *Ctx) {
 				}
 				vals := retVals(r)
 				return len(vals) == 2 && !strings.Contains(D(vals[0]), "DisconnectBadRequest")
-			}}.FromBlock(ifi.Block().Succs[0])
+			}}.FromBlock(ifi.Block().Succs[rejectEdge])
 			c.Check("C09.R5", ifi, "a pong without an outstanding ping closes the connection with bad request", bad == nil, "an unsolicited pong must not be accepted")
 		})
 		c.Anchor("C09.R5", "`lastPing <= 0` test in dispatchCommand", found)
